@@ -1,8 +1,9 @@
 (* C09 — Server push: Notify/Callback delivery, matching, timeout, shutdown.
-   This file only restates the property theorems; proofs are in srv/SrvC09.v. *)
+   This file only restates the property theorems; proofs are in srv/SrvC09.v, srv/SrvC09b.v (the gate and late
+   replies on whole windows) and srv/SrvC09c.v (every call returns exactly once). *)
 From Coq Require Import List NArith ZArith Bool Arith.
 From RecordUpdate Require Import RecordUpdate.
-From JV Require Import Bytes Msg SrvModel SrvLemmas SrvC09 SrvC10.
+From JV Require Import Bytes Msg SrvModel SrvLemmas SrvC09 SrvC10 SrvC09b SrvC09c.
 From JV Require SrvNoCrash.
 Import ListNotations.
 
@@ -143,3 +144,72 @@ Theorem c09_gate_no_request_ever : forall c tr s oss,
   forall ok id m p, ~ In (OSendReq ok id m p) (concat oss).
 Proof. exact no_push_no_request. Qed.
 Print Assumptions c09_gate_no_request_ever.
+
+(* 1 on whole windows ([step] = critical section + wake-ups), from every reachable state: without AllowPush the call
+   returns ErrPushUnsupported in its own window, which changes nothing and transmits nothing; on a stopped server a
+   pending push is enabled, returns ErrConnClosed, transmits nothing and only removes the pending operation *)
+Theorem c09_gate_step :
+  (forall c s n w m p, reach c s -> c_push s = false ->
+     step s (LCallPush n w m p) = Some (s, [ORet n APushUnsupported])) /\
+  (forall c s n w m p, reach c s -> cf_push c = false ->
+     step s (LCallPush n w m p) = Some (s, [ORet n APushUnsupported])) /\
+  (forall c s n s' os, reach c s -> running s = false -> step s (LRelPush n) = Some (s', os) ->
+     s' = s <| ops ::= del_op n |> /\ os = [ORet n AConnClosed]) /\
+  (forall c s n w m p, reach c s -> running s = false -> find_op n (ops s) = Some (OpPush n w m p) ->
+     step s (LRelPush n) = Some (s <| ops ::= del_op n |>, [ORet n AConnClosed])).
+Proof. exact (conj gate_off_step (conj gate_off_step_cfg (conj gate_closed_step gate_closed_enabled))). Qed.
+Print Assumptions c09_gate_step.
+
+(* 5 on whole windows: a record (with or without EOF) all of whose members are late / duplicate / unsolicited replies,
+   any number of them: the reader's window emits no observation at all and changes nothing but the reader's own
+   program counter and the transport buffer it receives from *)
+Theorem c09_late_reply_step : forall c s f ms, reach c s -> running s = true -> rd s = RHold f -> msgs_feed f ms ->
+  ms <> [] -> (forall m, In m ms -> late_reply s m) ->
+  exists s', step s LRelRead = Some (s', []) /\ s' = s <| rd := rd s' |> <| ch_in := ch_in s' |> /\
+    ((ch_in s = [] /\ rd s' = RIdle /\ ch_in s' = []) \/
+     (exists f' q, ch_in s = f' :: q /\ rd s' = RHold f' /\ ch_in s' = q)).
+Proof. exact late_reply_step. Qed.
+Print Assumptions c09_late_reply_step.
+
+Theorem c09_late_reply_step_fields : forall c s f ms, reach c s -> running s = true -> rd s = RHold f ->
+  msgs_feed f ms -> ms <> [] -> (forall m, In m ms -> late_reply s m) ->
+  exists s', step s LRelRead = Some (s', []) /\ tasks s' = tasks s /\ inq s' = inq s /\ units s' = units s /\
+    calls s' = calls s /\ cbs s' = cbs s /\ used s' = used s /\ ops s' = ops s /\ dp s' = dp s /\ wg s' = wg s /\
+    running s' = true /\ (rd s' = RIdle \/ exists f', rd s' = RHold f').
+Proof. exact late_reply_step_fields. Qed.
+Print Assumptions c09_late_reply_step_fields.
+
+(* 3, exactly once, counting EVERY return [ORet n _] (results, errors, context errors, send failures, nil,
+   ErrConnClosed, ErrPushUnsupported).  Environment hypothesis: the API calls of the trace carry distinct operation
+   numbers ([call_nums] lists the numbers of LCallStop / LCallCancel / LCallPush).
+   Conservation at a quiescent point: returns + callbacks still outstanding = calls, for every number ... *)
+Theorem c09_returns_conservation : forall c tr s oss n, run (init_of c) tr = Some (s, oss) -> NoDup (call_nums tr) ->
+  quiescent s = true -> count_ret n oss + countb (live_n n) (cbs s) = count_calls n tr.
+Proof. exact returns_conservation. Qed.
+Print Assumptions c09_returns_conservation.
+
+(* ... a callback that has not returned is registered ... *)
+Theorem c09_live_registered : forall c s i cb0, reach c s -> nth_error (cbs s) i = Some cb0 -> live cb0 = true ->
+  In (cb_id cb0, i) (calls s).
+Proof. exact live_registered. Qed.
+Print Assumptions c09_live_registered.
+
+(* ... so with no callback outstanding every call of the trace has returned exactly once and nothing else has ... *)
+Theorem c09_returns_exactly_once : forall c tr s oss, run (init_of c) tr = Some (s, oss) -> NoDup (call_nums tr) ->
+  quiescent s = true -> calls s = [] ->
+  (forall n, In n (call_nums tr) -> count_ret n oss = 1) /\ (forall n, ~ In n (call_nums tr) -> count_ret n oss = 0).
+Proof. exact returns_exactly_once. Qed.
+Print Assumptions c09_returns_exactly_once.
+
+(* ... in particular each Notify / Callback; once the server has stopped no callback can be outstanding *)
+Theorem c09_push_returns_exactly_once : forall c tr s oss n w m p, run (init_of c) tr = Some (s, oss) ->
+  NoDup (call_nums tr) -> quiescent s = true -> calls s = [] \/ running s = false ->
+  In (LCallPush n w m p) tr -> count_ret n oss = 1.
+Proof. exact push_returns_exactly_once. Qed.
+Print Assumptions c09_push_returns_exactly_once.
+
+(* the law behind it, window by window *)
+Theorem c09_returns_step : forall c n s l s' os, reach c s -> NoDup (map op_num (ops s)) -> step s l = Some (s', os) ->
+  countb (ret_n n) os + pend n s' = pend n s + call_label_n n l.
+Proof. exact (fun c n s l s' os R => step_pend n s l s' os (inv_push_reach c s R)). Qed.
+Print Assumptions c09_returns_step.
